@@ -213,6 +213,13 @@ def main(tier):
         r2 = dict(r)
         r2['samples'] = [s for s in r.get('samples', [])][:1]
         agg.add(r2)
+    # (d) Markdown: the blocks of the `[//]: #` pass and of the HTML-comment pass all come out, each once
+    from . import mdhtml
+    mm_tasks = [(1, 1), (2, 1), (1, 2), (2, 2)] + ([(3, 2), (2, 3), (3, 3), (0, 2), (2, 0)] if tier == 'thorough' else [])
+    for r in pmap(mdhtml.run_mdmerge, mm_tasks, chunksize=1):
+        r2 = dict(r)
+        r2['samples'] = []
+        agg.add(r2)
     by_role = {}
     for v in agg.violations:
         by_role.setdefault(v['role'], []).append(v)
@@ -223,6 +230,8 @@ def main(tier):
             if v.get('walk'):
                 from . import treewalk
                 treewalk.confirm_walk(binary, PROP, v, i)
+            elif v.get('mdmerge'):
+                mdhtml.confirm_mdmerge(binary, PROP, v, i)
             elif 'closure' in v:
                 # normaliser post-condition violations: solver-decided on the MIR; the observable effect is a
                 # shifted column, shown in the replay directory
@@ -267,7 +276,7 @@ def main(tier):
                      'the winnow tag parser is replaced by the event list of each comment template (attributes as written: C05, not applicable)',
                      'normalisers: ASCII comment text over per-form alphabets, opener assumed, closer not'],
         stubs=['tree_sitter::Node (kind + byte range)', 'tree_sitter::{Parser, Tree, TreeCursor} over model trees'],
-        must_cover=['paired', 'two or more blocks', 'start and end tag in one comment', 'normalised', 'tree walk'],
+        must_cover=['paired', 'two or more blocks', 'start and end tag in one comment', 'normalised', 'tree walk', 'md+html merge'],
         explanation='reference pairing and positions as Z3 terms over the symbolic geometry: PC∧(field≠reference) asked per block field on every path; normaliser output compared bytewise with its input')
 
 
